@@ -22,7 +22,9 @@ _SKIP = (tokenize.ENDMARKER, tokenize.NEWLINE, tokenize.NL, tokenize.INDENT, tok
 def tokens(src):
     try:
         return list(tokenize.generate_tokens(io.StringIO(src).readline))
-    except (tokenize.TokenError, IndentationError, SyntaxError, ValueError):
+    except (tokenize.TokenError, IndentationError, SyntaxError, ValueError, SystemError):
+        # SystemError: CPython 3.12.1's C tokenizer ("Negative size passed to PyUnicode_New") on some texts with a
+        # backslash-newline at the very start of a continuation line - treated like any other untokenisable text
         return None
 
 
